@@ -53,7 +53,7 @@ def run(tier, seed):
     vlib.harness(["conditions", "--seed", seed, "--out", t, "--n", nrand])
     paths += shard_file(t, 2 if tier == "quick" else 16, wd, "random")
     t = os.path.join(wd, "random-big.ndjson")
-    vlib.harness(["conditions", "--seed", seed + 1000, "--out", t, "--n", 150 if tier == "quick" else 2000, "--max-spends", 10, "--max-conds", 14, "--announce-limit", 1])
+    vlib.harness(["conditions", "--seed", seed + 1000, "--out", t, "--n", 150 if tier == "quick" else 2000, "--max-spends", 10, "--max-conds", 14, "--announce-limit", 1, "--flood", 1])
     paths += [t] if tier == "quick" else shard_file(t, 4, wd, "random-big")
     validate_parallel("Trace_Conditions.tla", paths, chk, "cond", sig_fn=sig, jobs=8, classes=[])
     res["states"] += chk.states
